@@ -267,6 +267,16 @@ func (d *Dispatcher) AddPeer(
 func (d *Dispatcher) addPeer(
 	peerID core.PeerID, isPeerOrigin bool, b *bitset.BitSet, messages Messages) (*peer, error) {
 
+	// The bitfield comes from the remote peer's handshake and indexes the
+	// per-piece counters below.
+	numPieces := uint(d.torrent.NumPieces())
+	if b.Len() != numPieces {
+		return nil, fmt.Errorf("bitfield has %d bits, torrent has %d pieces", b.Len(), numPieces)
+	}
+	if _, ok := b.NextSet(numPieces); ok {
+		return nil, errors.New("bitfield has bits set beyond the last piece")
+	}
+
 	pstats := &peerStats{}
 	if s, ok := d.peerStats.LoadOrStore(peerID, pstats); ok {
 		ps, ok := s.(*peerStats)
